@@ -7,6 +7,7 @@ Local Open Scope string_scope.
 
 Section PASSES.
   Variable ops : numops.
+  Variable fold_conversions : bool.   (* false: Constant_Fold's int(c)/double(c)/… branch is switched off (attribution of the known finding) *)
 
   Definition mk (k : kind) (cls text : string) (l : srcloc) (c : option (bool * cval)) (ch : list ast) := Node k cls text l c ch.
 
@@ -128,6 +129,7 @@ Section PASSES.
         | _, _ => n
         end
     | Node KFun_Call _ _ l _ [f; Node KArg_List _ _ _ _ [arg]] =>
+        if negb fold_conversions then n else
         match a_kind f, const_num arg, conversion_target (a_text f) with
         | KId, Some (_, t, v), Some (tn, tgt) =>
             match convert t v tgt with
@@ -215,8 +217,9 @@ Section PASSES.
     | Node KFor cls text l c [eq; bin; pre; body] =>
         let eq' := through_compiled eq in let bin' := through_compiled bin in let pre' := through_compiled pre in
         match eq', bin', pre' with
-        | Node KAssign_Decl _ _ _ _ [id0; c0], Node KBinary _ "<" _ _ [id1; c1], Node KPrefix _ "++" _ _ [id2] =>
-            if kind_eqb (a_kind id0) KId && is_constant c0 && kind_eqb (a_kind id1) KId && String.eqb (a_text id1) (a_text id0)
+        | Node KAssign_Decl _ _ _ _ [id0; c0], Node KBinary _ btext _ _ [id1; c1], Node KPrefix _ ptext _ _ [id2] =>
+            if String.eqb btext "<" && String.eqb ptext "++"
+               && kind_eqb (a_kind id0) KId && is_constant c0 && kind_eqb (a_kind id1) KId && String.eqb (a_text id1) (a_text id0)
                && is_constant c1 && kind_eqb (a_kind id2) KId && String.eqb (a_text id2) (a_text id0)
                && is_int_const c0 && is_int_const c1
             then Node KCompiled "" text l None [Node KFor cls text l c [eq; bin; pre]; body]
@@ -229,7 +232,8 @@ Section PASSES.
   (* ---- Assign_Decl *)
   Definition pass_assign_decl (n : ast) : ast :=
     match n with
-    | Node KEquation _ "=" l _ [Node KVar_Decl _ _ _ _ (id :: _); rhs] => Node KAssign_Decl "" "=" l None [id; rhs]
+    | Node KEquation _ text l _ [Node KVar_Decl _ _ _ _ (id :: _); rhs] =>
+        if String.eqb text "=" then Node KAssign_Decl "" "=" l None [id; rhs] else n
     | _ => n
     end.
 
